@@ -27,7 +27,8 @@ POW_SHORTCUTS = {"1": "numpy.positive", "2": "numpy.square"}
 UFUNC_ALIASES = {"numpy.true_divide": "numpy.divide", "numpy.abs": "numpy.absolute"}
 FUNC_ALIASES = {"numpy.amax": "numpy.max", "numpy.amin": "numpy.min"}
 REFUSAL = {"numpy.floor_divide", "numpy.remainder", "numpy.mod", "numpy.fmod", "numpy.divmod", "numpy.rint", "numpy.floor",
-           "numpy.ceil", "numpy.trunc"}
+           "numpy.ceil", "numpy.trunc",
+           "numpy.sign"}  # piecewise-constant like the rounding family; the repo lists it with them ("users might mistake [it] for differentiable")
 
 
 def _ufunc_of(run, cls: ClassInfo) -> Optional[str]:
@@ -406,7 +407,24 @@ def r11_5(run):
         and "getattr(_REGISTERED_UFUNC[ufunc], method)" in norm(call.func)
     run.ob("R11.5", loc(au, look[0]), au.short, "dispatch forwards method, *inputs, **kwargs and out", ok,
            "getattr(_REGISTERED_UFUNC[ufunc], method)(*inputs, **kwargs, out=out)" if ok else "an argument of the NumPy call is dropped on dispatch")
+    ufunc_method_dispatch(run, "R11.5", au)
     af = anchor_func(run, f"{TENSOR}.__array_function__")
+    _r11_5_af(run, af)
+
+
+def ufunc_method_dispatch(run, rule, au=None):
+    au = au or anchor_func(run, f"{TENSOR}.__array_ufunc__")
+    uparam = au.node.args.args[1].arg
+    mparam = au.node.args.args[2].arg
+    raw = [c for c in own_nodes(au.node) if isinstance(c, ast.Call) and isinstance(c.func, ast.Name) and c.func.id == uparam]
+    viaget = [c for c in own_nodes(au.node) if isinstance(c, ast.Call) and isinstance(c.func, ast.Call) and dotted(c.func.func) == "getattr"
+              and len(c.func.args) == 2 and norm(c.func.args[0]) == uparam and norm(c.func.args[1]) == mparam]
+    run.ob(rule, loc(au, raw[0] if raw else au.node), au.short, "non-differentiable ufuncs are invoked as getattr(ufunc, method) (reduce/outer/accumulate honoured)",
+           not raw and bool(viaget), f"{len(viaget)} call(s) through getattr({uparam}, {mparam})" if not raw and viaget else
+           f"`{uparam}(...)` is called directly: np.<ufunc>.outer/reduce/accumulate on tensors silently compute the plain element-wise call")
+
+
+def _r11_5_af(run, af):
     cf = build_cfg(run, af)
     rets = [r for r in own_nodes(af.node) if isinstance(r, ast.Return) and isinstance(r.value, ast.Call)]
     diff = [r for r in rets if "_REGISTERED_DIFFERENTIABLE_NUMPY_FUNCS[func]" in norm(r.value.func)]
